@@ -159,6 +159,35 @@ def run(ctx):
                 if not c1.ok and not c1.resource_limited:
                     ctx.fail("C13 operators on %s rejected under %s (accepted elsewhere?): %s" % (by_id[iid]["rep"], core.cfg_name(cfg), c1.first_error()),
                              {"mode": "syntax", "expect": "ok", "src": src, "cfg": list(cfg), "flags": ["-DAUV_SINGLE_TU"]}, detail=by_id[iid])
+    # ... and must BUILD and run them without optimisation (an odr-used static constexpr member without a namespace-scope definition only fails at link time,
+    # before C++17, when nothing is inlined): one shard per configuration, complete single-TU program at -O0, one operand pair executed
+    o0 = []
+    o0_cfgs = core.CONFIGS if not quick else [("g++", "c++14"), ("clang++", "c++14"), core.CONFIGS[[1, 2, 4, 5][ctx.seed % 4]]]
+    for j, cfg in enumerate(o0_cfgs):
+        name, text, ids = shard_list[(ctx.seed + j) % len(shard_list)]
+        ids = [i for i in ids if i != "canary"]
+        if ids:
+            o0.append((cfg, emit_values([by_id[i] for i in ids]) + SINGLE, ids[0]))
+
+    def build_o0(x):
+        cfg, src, iid = x
+        p = ctx.write("o0/%s_%s.cc" % (cfg[0][0] + cfg[1][-2:], iid), src)
+        cr = core.compile_one(cfg, p, p[:-3] + ".exe", flags=["-O0", "-DAUV_SINGLE_TU"], timeout=900)
+        if not cr.ok:
+            return cr, None
+        return cr, core.run_cmd([p[:-3] + ".exe", "--one", iid, "3", "2"], timeout=120)
+    for (cfg, src, iid), (cr, rr) in zip(o0, core.pmap(build_o0, o0)):
+        ctx.count(1)
+        if cr.resource_limited:
+            ctx.inconclusive += 1
+        elif not cr.ok:
+            ctx.fail("C13: the operator / round-trip program does not build without optimisation under %s: %s" % (core.cfg_name(cfg), cr.first_error()),
+                     {"mode": "build", "expect": "ok", "src": src, "cfg": list(cfg), "flags": ["-O0", "-DAUV_SINGLE_TU"]})
+        elif rr[0] != 0 or "AUVONE ok" not in rr[1]:
+            ctx.fail("C13: the operator / round-trip program built at -O0 under %s fails on operands (3, 2): %s" % (core.cfg_name(cfg), (rr[1] + rr[2])[-300:]),
+                     {"mode": "run", "src": src, "cfg": list(cfg), "flags": ["-O0", "-DAUV_SINGLE_TU"], "args": ["--one", iid, "3", "2"], "stdout": "AUVONE ok\n"})
+        else:
+            ctx.nontrivial(("o0", core.cfg_name(cfg), iid))
     got_canary = False
     for f in vr.fails:
         if f["inst"] == "canary":
